@@ -145,10 +145,83 @@ Proof.
         assert (Hev : ever s = true) by auto.
         pose proof (sdel_length e (pending s) ND (mem_in _ _ Em)) as Hlen.
         constructor; simpl; auto; try t_count Hsum; try t_busy Hset B.
-        -- intros _. destruct (sdel e (pending s)); auto. left; congruence.
-        -- intros _. left. pose proof (Hsum (mkt (InDone es true) rs)) as Hs; cbn [owed now b2z length] in Hs.
-           pose proof (sum_owed_nonneg (set_thread i (mkt (InDone es true) rs) (threads s))). lia.
-        -- intros Ht. apply T in Ht. rewrite Ht. auto.
-        -- apply sdel_nodup; auto.
+        all: try solve [intros _; destruct (sdel e (pending s)); [right; apply orb_true_r | left; congruence]].
+        all: try solve [intros Ht; apply T in Ht; rewrite Ht; auto].
+        all: try solve [apply sdel_nodup; auto].
+        all: try solve [intros _; auto].
       * constructor; simpl; auto; try t_count Hsum; try t_busy Hset B.
 Qed.
+
+Lemma run_inv : forall sched s, Inv s -> Inv (run true s sched).
+Proof. induction sched; intros; simpl; auto. unfold run in *; simpl. apply IHsched. apply step_inv; auto. Qed.
+
+Lemma quiescent_owed : forall ts, forallb finished ts = true -> sum_owed ts = 0.
+Proof.
+  induction ts; simpl; intros; auto. apply andb_prop in H. destruct H as [Ha Hr]. rewrite (IHts Hr).
+  destruct a as [[|[|e es] [|]|[|e es] [|]] [|c r]]; simpl in Ha; try discriminate; reflexivity.
+Qed.
+
+(* safety, every schedule of every set of Add/Done programs: the group is triggered only if a Done removed the last
+   pending element at some earlier moment (the set became empty after being non-empty) *)
+Theorem wg_trigger_sound : forall progs sched,
+  let s := run true (init progs) sched in trig s = true -> emptied s = true.
+Proof. intros progs sched s. apply (run_inv sched _ (init_inv progs)). Qed.
+
+(* the trigger happens at a moment when nothing is pending and no call is between its counter accesses *)
+Theorem wg_trigger_moment : forall progs sched i,
+  let s := run true (init progs) sched in
+  trig s = false -> trig (step true s i) = true ->
+  pending (step true s i) = [] /\ sum_owed (threads (step true s i)) = 0.
+Proof.
+  intros progs sched i s H0 H1.
+  pose proof (run_inv sched _ (init_inv progs)) as I. fold s in I.
+  pose proof (step_inv s i I) as I'. destruct I' as [J' _ _ _ _ _ _ _].
+  assert (Hc : counter (step true s i) = 0).
+  { unfold step in *. destruct (nth_error (threads s) i) as [[nw rs]|]; [|congruence].
+    cbn [now rest] in *.
+    destruct nw as [|es [|]|es [|]]; try destruct es; try destruct rs as [|[?|?] ?]; cbn [trig counter] in *;
+      try congruence; try (destruct (mem _ (pending s)); cbn [trig] in *; congruence);
+      rewrite H0 in H1; simpl in H1; apply Z.eqb_eq in H1; auto. }
+  pose proof (sum_owed_nonneg (threads (step true s i))).
+  rewrite Hc in J'. split; [|lia].
+  destruct (pending (step true s i)); auto. simpl length in J'. lia.
+Qed.
+
+(* liveness at quiescence, every schedule: when every call has returned and the pending set is empty after having been
+   non-empty, the group has triggered (so Wait returns) *)
+Theorem wg_trigger_complete : forall progs sched,
+  let s := run true (init progs) sched in
+  quiescent s = true -> pending s = [] -> ever s = true -> trig s = true.
+Proof.
+  intros progs sched s Hq Hp He.
+  destruct (run_inv sched _ (init_inv progs)) as [J _ _ _ L _ _ _]. fold s in J, L.
+  rewrite Hp in J. rewrite (quiescent_owed _ Hq) in J. simpl in J.
+  destruct (L He); auto. lia.
+Qed.
+
+Corollary wg_trigger_iff : forall progs sched,
+  let s := run true (init progs) sched in
+  quiescent s = true -> pending s = [] -> (trig s = true <-> emptied s = true).
+Proof.
+  intros progs sched s Hq Hp. split.
+  - apply wg_trigger_sound.
+  - intros He. apply wg_trigger_complete; auto.
+    destruct (run_inv sched _ (init_inv progs)) as [_ _ _ _ _ _ M _]. apply M. auto.
+Qed.
+
+(* D14c on the pinned code (fixed = false): T0 adds 1; T1 = Add(1) sees 1 pending; T2 = Done(1) runs completely;
+   T1 corrects the counter to 0 without triggering.  Everybody returned, the set is empty after having been
+   non-empty, the group is not triggered. *)
+Definition d14c_progs : list (list call) := [[CAdd [1%N]]; [CAdd [1%N]]; [CDone [1%N]]].
+Definition d14c_sched : list nat := [0; 0; 1; 1; 2; 2; 2; 1]%nat.
+
+Theorem wg_refuted_dup_pinned :
+  let s := run false (init d14c_progs) d14c_sched in
+  quiescent s = true /\ pending s = [] /\ emptied s = true /\ counter s = 0 /\ trig s = false.
+Proof. vm_compute. repeat split; reflexivity. Qed.
+
+(* the same schedule on the repaired code triggers *)
+Example wg_dup_fixed :
+  let s := run true (init d14c_progs) d14c_sched in
+  quiescent s = true /\ pending s = [] /\ emptied s = true /\ trig s = true.
+Proof. vm_compute. repeat split; reflexivity. Qed.
